@@ -67,6 +67,116 @@ def val? : Sexp → Option Val
   | .list [.atom "bool", b] => b.bool?.map .bool
   | _ => none
 
+/-! Why is a function outside the fragment of `C18_sem_partial`?  (evidence only; mirrors `fragE`/`fragS`) -/
+mutual
+partial def whyE : Expr → List String
+  | .name .. => []
+  | .const .. => []
+  | .attr _ v _ _ => whyE v ++ (if noWalrus v then [] else ["expr:walrus-inside-attribute/subscript/display"])
+  | .subscript _ v s _ => whyE v ++ whyE s ++ (if noWalrus v && noWalrus s then [] else ["expr:walrus-inside-attribute/subscript/display"])
+  | .call _ f as ks => whyE f ++ whyEs as ++ (if ks.isEmpty then [] else ["expr:call-keyword-args"] ++ whyEs ks)
+  | .unary _ _ e => whyE e
+  | .binop _ _ l r => whyE l ++ whyE r
+  | .compare _ l ops rs => whyE l ++ whyEs rs ++ (if ops.length == 1 && rs.length == 1 then [] else ["expr:compare-chain"])
+  | .seq _ _ es _ => whyEs es ++ (if noWalruss es then [] else ["expr:walrus-inside-attribute/subscript/display"])
+  | .namedexpr _ (.name _ _ .store) v => whyE v
+  | .namedexpr .. => ["expr:walrus-odd-target"]
+  | .keyword _ _ has v => (if has then [] else ["expr:call-**kwargs"]) ++ whyE v
+  | .starred _ v _ => ["expr:starred"] ++ whyE v
+  | .boolop _ _ vs => ["expr:boolop"] ++ whyEs vs
+  | .ifexp _ t b e => ["expr:ifexp"] ++ whyE t ++ whyE b ++ whyE e
+  | .lambda .. => ["expr:lambda"]
+  | .comp .. => ["expr:comprehension"]
+  | .other _ k _ ks => ["expr:" ++ k] ++ whyEs ks
+  | .noneMarker => []
+  | _ => ["expr:other"]
+partial def whyEs : List Expr → List String
+  | [] => []
+  | e :: es => whyE e ++ whyEs es
+end
+
+/-! experimental variants of `okT` (evidence / planning only) -/
+def pairOkV (v : Nat) (cfg : Config) (pk : String) (ki : String × Expr) (rest : List (String × Expr)) : Bool :=
+  let hi := !okChild cfg pk ki.1 ki.2
+  let moved := rest.filter fun kj => !(notMoved cfg pk hi kj)
+  moved.isEmpty
+    || (resPure cfg (operand ki.2) && disjoint (namesE ki.2) (writesEs (moved.map (·.2))))
+    || (v ≥ 2 && moved.all (fun kj => pureArg kj.2) && disjoint (namesEs (moved.map (·.2))) (writesE ki.2))
+def pairsOkV (v : Nat) (cfg : Config) (pk : String) : List (String × Expr) → Bool
+  | [] => true
+  | k :: rest => pairOkV v cfg pk k rest && pairsOkV v cfg pk rest
+mutual
+partial def okV (v : Nat) (cfg : Config) : Expr → Bool
+  | .attr _ x _ _ => okV v cfg x
+  | .subscript _ x s _ => okV v cfg x && okV v cfg s && pairsOkV v cfg "Subscript" [("value", x), ("slice", s)]
+  | .call _ f as _ => okV v cfg f && okVs v cfg as && pairsOkV v cfg "Call" (("func", f) :: tag "args" as)
+  | .unary _ _ e => okV v cfg e
+  | .binop _ _ l r => okV v cfg l && okV v cfg r && pairsOkV v cfg "BinOp" [("left", l), ("right", r)]
+  | .compare _ l _ rs => okV v cfg l && okVs v cfg rs && pairsOkV v cfg "Compare" (("left", l) :: tag "comparators" rs)
+  | .seq _ .set es _ => okVs v cfg es && pairsOkV v cfg "Set" (tag "elts" es)
+  | .seq _ .tuple es c => okVs v cfg es && c != .store && pairsOkV v cfg "Tuple" (tag "elts" es)
+  | .seq _ .list es c => okVs v cfg es && c != .store && pairsOkV v cfg "List" (tag "elts" es)
+  | .namedexpr _ _ x => okV v cfg x
+  | _ => true
+partial def okVs (v : Nat) (cfg : Config) : List Expr → Bool
+  | [] => true
+  | e :: es => okV v cfg e && okVs v cfg es
+end
+
+def whyTop (cfg : Config) (e : Expr) : List String :=
+  let w := whyE e
+  if w.isEmpty && !okT cfg e then
+    [if okV 2 cfg e then "overtaking:effectful-operand-overtaken-by-pure-later-operand(not-proved)"
+     else "overtaking:finding-class(operand/read reordered)"] else w
+
+mutual
+partial def whyS (cfg : Config) : Stmt → List String
+  | .assign _ ts v =>
+      (if isSingleName ts then [] else
+        [if ts.length > 1 then "stmt:assign-multi-target" else
+          match ts with
+          | [.attr ..] => "stmt:assign-attribute-target"
+          | [.subscript ..] => "stmt:assign-subscript-target"
+          | [.seq ..] => "stmt:assign-unpacking-target"
+          | _ => "stmt:assign-other-target"]) ++ whyTop cfg v ++ (if isSingleName ts then [] else whyEs ts)
+  | .expr _ v => whyTop cfg v
+  | .ret _ vs => vs.flatMap (whyTop cfg)
+  | .if_ _ t b e => whyTop cfg t ++ whySs cfg b ++ whySs cfg e
+  | .for_ _ tg it b e _ isAsync =>
+      (if isNameT tg then [] else ["stmt:for-nonname-target"]) ++ (if isAsync then ["stmt:async-for"] else [])
+        ++ whyTop cfg it ++ whySs cfg b ++ whySs cfg e
+  | .try_ _ b hs e f => whySs cfg b ++ whySs cfg hs ++ whySs cfg e ++ whySs cfg f
+  | .handler _ ty nm b =>
+      (if handlerTypeOk ty then [] else ["stmt:except-complex-type"]) ++ (if nm.isEmpty then [] else ["stmt:except-as-name"])
+        ++ whySs cfg b
+  | .pass _ => []
+  | .break_ _ => []
+  | .continue_ _ => []
+  | .augAssign _ t _ v => ["stmt:augassign"] ++ whyE t ++ whyTop cfg v
+  | .annAssign .. => ["stmt:annassign"]
+  | .delete .. => ["stmt:delete"]
+  | .while_ _ t b e => ["stmt:while"] ++ whyTop cfg t ++ whySs cfg b ++ whySs cfg e
+  | .with_ _ items b _ => ["stmt:with"] ++ whyEs (items.flatMap fun | .withitem _ c v => c :: v | x => [x]) ++ whySs cfg b
+  | .raise _ e c => ["stmt:raise"] ++ (e ++ c).flatMap (whyTop cfg)
+  | .assert_ _ t m => ["stmt:assert"] ++ whyTop cfg t ++ m.flatMap (whyTop cfg)
+  | .functionDef .. => ["stmt:nested-def"]
+  | .classDef .. => ["stmt:class"]
+  | .import_ .. => ["stmt:import"]
+  | .importFrom .. => ["stmt:import"]
+  | .global .. => ["stmt:global/nonlocal"]
+  | .nonlocal .. => ["stmt:global/nonlocal"]
+  | .other _ k _ _ => ["stmt:" ++ k]
+partial def whySs (cfg : Config) : List Stmt → List String
+  | [] => []
+  | s :: ss => whyS cfg s ++ whySs cfg ss
+end
+
+def whyFn (cfg : Config) : Stmt → List String
+  | .functionDef _ _ as b ds rs _ =>
+      (if quiet cfg as then [] else ["fn:defaults/annotations-need-hoisting"]) ++ (if ds.isEmpty then [] else ["fn:decorators"])
+        ++ (if rs.isEmpty then [] else ["fn:return-annotation"]) ++ whySs cfg b
+  | _ => ["not-a-function"]
+
 def handlers : List (String × (List Sexp → String)) := [
   ("c18.anf", fun a => match a with
     | [c, s] => match config? c, parseStmt s with
@@ -86,6 +196,14 @@ def handlers : List (String × (List Sexp → String)) := [
   ("c18.frag", fun a => match a with
     | [c, s] => match config? c, parseStmt s with
       | some cfg, some st => toString (Sexp.ofBool (fragFn cfg st && (namesS st).all (fun x => !isTempName x)))
+      | none, _ => "bad-config"
+      | _, none => "bad-node"
+    | _ => "bad-args"),
+  -- the reasons why the program is outside the proved fragment (empty = inside, up to temporary-like names)
+  ("c18.why", fun a => match a with
+    | [c, s] => match config? c, parseStmt s with
+      | some cfg, some st => toString (Sexp.ofStrs ((whyFn cfg st ++
+            (if (namesS st).all (fun x => !isTempName x) then [] else ["names:temporary-like"])).eraseDups))
       | none, _ => "bad-config"
       | _, none => "bad-node"
     | _ => "bad-args"),
